@@ -17,6 +17,7 @@ import (
 	_ "verifharness/engines/stateproof"
 	_ "verifharness/engines/framing"
 	_ "verifharness/engines/ssz"
+	_ "verifharness/engines/wire"
 	_ "verifharness/engines/store"
 	_ "verifharness/engines/table"
 )
